@@ -11,7 +11,9 @@
    all data, paths and ids: the stitching layer neither loses, misplaces nor duplicates. *)
 From Coq Require Import String List Bool ZArith.
 From GW Require Import Base.Res Base.GoStr Base.Json Gql.Syntax Gql.Spec Gw.Points Gw.FedCheck
-     Gw.Locate Gw.Plan Proofs.CodecProofs Proofs.PointsProofs Proofs.FindProofs Proofs.PlanProofs Proofs.PlanCount Proofs.StitchSound Proofs.JoinSound Proofs.GroupSound Proofs.StepJoin Proofs.StepPoints.
+     Gw.Locate Gw.Plan Proofs.CodecProofs Proofs.PointsProofs Proofs.FindProofs Proofs.PlanProofs Proofs.PlanCount Proofs.StitchSound Proofs.JoinSound Proofs.GroupSound Proofs.StepJoin Proofs.StepPoints
+     Proofs.StepScrub Proofs.DeepPoints Proofs.ExactJoin Proofs.FedCanonical Proofs.PlanCanonical Proofs.FedTheorem
+     Gw.Locate Gw.Plan Gw.Scrub Gw.Fed.
 Import ListNotations.
 Open Scope string_scope.
 Open Scope list_scope.
@@ -39,16 +41,16 @@ Print Assumptions C01_plan_holds_every_field_once.
    executorMergeObject gives the answer to both together.  This is why one selection may be sent
    in parts to different services and stitched. *)
 Theorem C01_stitching_is_sound : forall w frags vars,
-  (forall o rt c, atomic_f (resolve w vars o rt c)) ->
-  forall fuel o rt l1 l2, good l1 -> good l2 -> compat l1 l2 ->
+  atomic_world w vars ->
+  forall fuel o rt l1 l2, inw w o -> good l1 -> good l2 -> compat l1 l2 ->
   exec fuel w frags vars o rt (l1 ++ l2) =
   merge_value (Some (exec fuel w frags vars o rt l1)) (exec fuel w frags vars o rt l2).
 Proof. intros w frags vars Hw fuel. exact (stitch_sound w frags vars Hw fuel). Qed.
 Print Assumptions C01_stitching_is_sound.
 
 Theorem C01_stitching_at_the_root : forall w frags vars,
-  (forall o rt c, atomic_f (resolve w vars o rt c)) ->
-  forall fuel o rt l1 l2, good l1 -> good l2 -> compat l1 l2 ->
+  atomic_world w vars ->
+  forall fuel o rt l1 l2, inw w o -> good l1 -> good l2 -> compat l1 l2 ->
   insert_object (exec (S fuel) w frags vars o rt l1) [] (exec (S fuel) w frags vars o rt l2) =
   Ok (exec (S fuel) w frags vars o rt (l1 ++ l2)).
 Proof. intros w frags vars Hw fuel o rt l1 l2. exact (stitch_at_root w frags vars Hw fuel o rt l1 l2). Qed.
@@ -119,7 +121,7 @@ Qed.
    for every data graph with atomic scalars, every object, every depth of p and every l1, l2 in
    collected form that agree on common keys and do not themselves ask for id. *)
 Theorem C01_one_join_is_sound : forall w frags vars,
-  (forall o rt c, atomic_f (resolve w vars o rt c)) ->
+  atomic_world w vars ->
   forall l1, good (l1 ++ [id_sel]) ->
   forall fuel o l2 p acc acc' acc'' m id ans node,
   find_obj (b_id o) (w_objs w) = Some o ->
@@ -136,7 +138,7 @@ Print Assumptions C01_one_join_is_sound.
 
 (* ... and before the scrubber runs, the point holds the answer to l1, id and l2 *)
 Theorem C01_join_before_scrubbing : forall w frags vars,
-  (forall o rt c, atomic_f (resolve w vars o rt c)) ->
+  atomic_world w vars ->
   forall l1, good (l1 ++ [id_sel]) ->
   forall fuel o l2 p acc acc' m id ans node,
   find_obj (b_id o) (w_objs w) = Some o ->
@@ -156,9 +158,9 @@ Print Assumptions C01_join_before_scrubbing.
    with executorMergeObject gives the answer to all of them together; and that is the reference
    answer to the client's selection with its keys in another order. *)
 Theorem C01_grouping_is_transparent : forall w frags vars,
-  (forall o rt c, atomic_f (resolve w vars o rt c)) ->
+  atomic_world w vars ->
   forall prios urls ptype ploc fuel o rt sels gs,
-  good sels -> group prios urls ptype ploc sels [] = Ok gs ->
+  inw w o -> good sels -> group prios urls ptype ploc sels [] = Ok gs ->
   Permutation.Permutation (all_sels gs) sels /\
   merge_all (JObj []) (map (fun g => exec (S (S fuel)) w frags vars o rt (snd g)) gs) =
     exec (S (S fuel)) w frags vars o rt (all_sels gs) /\
@@ -173,7 +175,7 @@ Print Assumptions C01_grouping_is_transparent.
    every point holds the reference answer to l1, id and l2 together for its own object: a visit
    changes nothing at the other points. *)
 Theorem C01_one_step_joins_every_point : forall w frags vars,
-  (forall o rt c, atomic_f (resolve w vars o rt c)) ->
+  atomic_world w vars ->
   forall l1 l2, good (l1 ++ [id_sel]) -> good l2 -> compat (l1 ++ [id_sel]) l2 ->
   forall fuel ps os acc,
   ForallOrdPairs diverge ps -> Forall2 (holds_parent w frags vars l1 fuel acc) ps os ->
@@ -188,7 +190,7 @@ Print Assumptions C01_one_step_joins_every_point.
    element, the step's visits succeed, and afterwards every element holds the reference answer
    to l1, id and l2 together. *)
 Theorem C01_step_below_a_list_field : forall w frags vars,
-  (forall o rt c, atomic_f (resolve w vars o rt c)) ->
+  atomic_world w vars ->
   forall l1 l2, good (l1 ++ [id_sel]) -> good l2 -> compat (l1 ++ [id_sel]) l2 ->
   forall fuel k, clean_key k -> k <> "" ->
   forall po rt args os nonnull subf,
@@ -209,7 +211,7 @@ Print Assumptions C01_step_below_a_list_field.
 
 (* ... and below a field that answers one object: the point is "k#<id>" *)
 Theorem C01_step_below_an_object_field : forall w frags vars,
-  (forall o rt c, atomic_f (resolve w vars o rt c)) ->
+  atomic_world w vars ->
   forall l1 l2, good (l1 ++ [id_sel]) -> good l2 -> compat (l1 ++ [id_sel]) l2 ->
   forall fuel k, clean_key k -> k <> "" ->
   forall m o nonnull subf,
@@ -224,3 +226,82 @@ Proof.
   exact (object_step_sound w frags vars Hw l1 l2 G1 G2 C fuel k Hk m o nonnull subf Hne).
 Qed.
 Print Assumptions C01_step_below_an_object_field.
+
+(* A dependent step at any depth.  The parent's selection is in collected form at every level of
+   the path and selects the path's fields beside whatever else; at the end of the path it is l1
+   with the join id.  The data has the declared shape: response keys that are GraphQL names, lists
+   of fewer than 2^63 entries, nulls where the schema allows them, every reference naming an
+   object.  Then executorFindInsertionPoints on the parent's reference answer returns one point
+   per object at the end of the path, in the order of the answer; the step's visits all succeed;
+   afterwards every point holds the reference answer to l1, id and l2 together for its own
+   object. *)
+Theorem C01_step_at_any_depth : forall w frags vars l1,
+  good (l1 ++ [id_sel]) -> forall fuel,
+  atomic_world w vars -> forall l2, good l2 -> compat (l1 ++ [id_sel]) l2 ->
+  forall e r sels fsels po rt,
+  pathsel l1 (e :: r) sels -> fpath (e :: r) fsels -> shaped w vars (e :: r) po rt ->
+  exists m ps acc',
+    exec (S (F fuel (length r))) w frags vars po rt sels = JObj m /\
+    find_insertion_points (map pe_key (e :: r)) fsels m [] = Ok ps /\
+    join_all w frags vars l2 fuel ps (JObj m) = Ok acc' /\
+    Forall2 (holds_joined w frags vars l1 l2 fuel acc') ps (leaves w vars (e :: r) po rt).
+Proof. intros w frags vars l1 G fuel Hw l2 G2 C. exact (deep_step_sound w frags vars l1 G fuel Hw l2 G2 C). Qed.
+Print Assumptions C01_step_at_any_depth.
+
+(* The canonical join as an equation between whole responses: from the reference answer to
+   k { l1 id }, the points found, the step's visits and the scrubber give exactly the reference
+   answer to k { l1 l2 }. *)
+Theorem C01_canonical_join_is_exact : forall w frags vars,
+  atomic_world w vars ->
+  forall l1 l2, good (l1 ++ [id_sel]) -> good l2 -> compat (l1 ++ [id_sel]) l2 -> ~ In "id" (map key_of l2) ->
+  forall fuel k, clean_key k ->
+  forall po rt a nm args os nonnull subf,
+  rkey a nm = k ->
+  resolve w vars po rt (to_c (Field a nm args [] (l1 ++ [id_sel]))) = FList (map (fun o => FRef (b_id o)) os) ->
+  Forall (fun o => find_obj (b_id o) (w_objs w) = Some o) os ->
+  (Z.of_nat (length os) <= int64_max)%Z ->
+  exists m ps acc',
+    exec (S (S (S fuel))) w frags vars po rt [Field a nm args [] (l1 ++ [id_sel])] = JObj m /\
+    find_insertion_points [k] [FS k true nonnull subf] m [] = Ok ps /\
+    join_all w frags vars l2 fuel ps (JObj m) = Ok acc' /\
+    scrub_points "id" acc' ps = Ok (exec (S (S (S fuel))) w frags vars po rt [Field a nm args [] (l1 ++ l2)]).
+Proof.
+  intros w frags vars Hw l1 l2 G1 G2 C N fuel k Hk.
+  exact (canonical_join_exact w frags vars Hw l1 l2 G1 G2 C N fuel k Hk).
+Qed.
+Print Assumptions C01_canonical_join_is_exact.
+
+(* The whole-path model equals the reference on the canonical federation join.  For every
+   federation in which the root field goes to service A from the gateway and stays there, the
+   scalar fields l1 below it stay at A and the scalar fields l2 go to B and stay there; every data
+   graph with atomic scalars in which the root field, declared a list, answers fewer than 2^63
+   objects named by their ids and of the step's parent type; every l1, l2 in collected form that
+   agree on common keys, with no key id and no use of $id in l2, and a client that does not ask
+   for id: planning (Gw/Plan.v), the calls, the insertion points, the follow-up fetches with the
+   variable id bound, the stitching (Gw/Fed.v, Gw/Points.v), the scrub paths (Gw/Scrub.v) and the
+   scrubber, composed as gateway_answer composes them, return exactly the reference answer. *)
+Theorem C01_gateway_answers_the_canonical_join :
+  forall prios urls ft sh w vars, atomic_world w vars ->
+  forall rootT T t ka kn args l1 l2 nn locA locB os client target n,
+  ka <> "" -> clean_key ka ->
+  locA <> "" -> locA <> locB ->
+  choose prios urls rootT kn "" = Ok locA -> choose prios urls rootT kn locA = Ok locA ->
+  assoc (url_key rootT kn) ft = Some T ->
+  Forall (at_loc prios urls T locA locA) l1 -> Forall (at_loc prios urls T locA locB) l2 ->
+  Forall (at_loc prios urls T locB locB) l2 -> l2 <> [] ->
+  shape_of (rootT ++ "." ++ kn) sh = Some (t, (true, nn)) ->
+  good (l1 ++ [id_sel]) -> good l2 -> compat (l1 ++ [id_sel]) l2 ->
+  ~ In "id" (map key_of l2) -> no_id_var l2 ->
+  descend [ka] client = Ok target -> natural_id target = false ->
+  resolve w vars None rootT (to_c (Field ka kn args [] (l1 ++ [id_sel]))) = FList (map (fun o => FRef (b_id o)) os) ->
+  Forall (fun o => find_obj (b_id o) (w_objs w) = Some o) os ->
+  (Z.of_nat (length os) <= int64_max)%Z ->
+  Forall (fun o => type_matches w T (b_type o) = true) os ->
+  Forall (fun o => flat_at w vars o l2) os ->
+  gateway_answer (S (S (S n))) prios urls ft sh w vars rootT [Field ka kn args [] (l1 ++ l2)] client =
+  Ok (exec (S (S (S n))) w [] vars None rootT [Field ka kn args [] (l1 ++ l2)]).
+Proof.
+  intros prios urls ft sh w vars Hw rootT T t ka kn args l1 l2 nn locA locB os client target n.
+  exact (gateway_answers_canonical_join prios urls ft sh w vars Hw rootT T t ka kn args l1 l2 nn locA locB os client target n).
+Qed.
+Print Assumptions C01_gateway_answers_the_canonical_join.
